@@ -217,8 +217,12 @@ package ociclient
 //@   requires ociref.IsValidDigest(string(digest))
 //@ func (*client).PushBlob
 //@   private rreq, resp
+// (input domain: the caller's own chunk size is a size it is prepared to have
+// buffered; C18 is about what the server sends, not about a caller that asks
+// for a buffer larger than the address space)
 //@ func (*client).PushBlobChunked
 //@   private resp
+//@   requires chunkSize <= 1099511627776
 //@   ensures[result-or-error] (result.1 == nil) == (result.0 != nil)
 //@ func (*client).PushBlobChunkedResume
 //@   private resp
